@@ -1084,9 +1084,18 @@ func (cl *vfC10Cluster) probeFirstCommand(phase string, keyBase, nKeys int) bool
 		return false
 	}
 	defer tl.close()
-	sF := &vfC10Side{name: tf.name, prefix: cl.viaF.prefix, text: true, txt: tf}
-	sL := &vfC10Side{name: tl.name, prefix: cl.ref.prefix, text: true, txt: tl}
-	aF, ok := cl.exec1(sF, o)
+	// the whole request has to arrive within the first 64 bytes the server reads (it is parsed and run
+	// by the connection's own text engine before the forwarding wrapper takes over): short form, raw 16-byte LockId
+	lid := vfLockIdBytes(o.LockId)
+	short := func(t *vfTextConn, prefix string) (vfC10Answer, bool) {
+		v, err := t.call("UNLOCK", vfC10KeyName(prefix, o.Key), "LOCK_ID", string(lid[:]))
+		if err != nil {
+			c.inconclusive("%s: first text command: %v", t.name, err)
+			return vfC10Answer{}, false
+		}
+		return vfC10TextAnswer(v), true
+	}
+	aF, ok := short(tf, cl.viaF.prefix)
 	if !ok {
 		return false
 	}
@@ -1096,7 +1105,7 @@ func (cl *vfC10Cluster) probeFirstCommand(phase string, keyBase, nKeys int) bool
 		c.note("[%s] first text command %s -> REFUSED %s", phase, o.String(), aF.Repr)
 		return true
 	}
-	aR, ok := cl.exec1(sL, o)
+	aR, ok := short(tl, cl.ref.prefix)
 	if !ok {
 		return false
 	}
